@@ -314,6 +314,36 @@ def rule_who_serves(ctx):
                 rs.add(root_fn(f).qname)
     ok = rs == {NET + "::gossip::Network::run_inbound_stream", NET + "::gossip::Network::run_outbound_stream"}
     ctx.ob(R, "callers of gossip run_stream", ok, "run_stream is called only by the gossip inbound/outbound runners" if ok else "run_stream callers: %s" % sorted(rs))
+    # endpoint dispatch table
+    top = ctx.fn(NET + "::Runner::run")
+    bodies = [g for g in common.family(ctx, top) if any((c["rq"] or c["q"]) == NET + "::gossip::Network::run_inbound_stream" for c in ctx.T(g).calls())]
+    ctx.floor(R, "accept-loop bodies dispatching on the preface endpoint", len(bodies), 1)
+    for g in bodies:
+        T = ctx.T(g)
+
+        def a_cons(t):
+            return chain(t)[1][-1:] == ["consensus"]
+
+        # the endpoint announced in the preface: whatever value is switched on with the variants of preface::Endpoint
+        ep_terms = set()
+        for bb in range(len(g.blocks)):
+            si = T.switch_info(bb)
+            if si and si[0][0] == "discr" and set(l for ls in si[1].values() for l in ls) >= {"ConsensusNet", "GossipNet"}:
+                ep_terms.add(si[0][1])
+
+        def a_ep(t):
+            return t in ep_terms
+        W = Walker(ctx, g, [Atom("endpoint", "enum", a_ep, ["ConsensusNet", "GossipNet"]), Atom("consensus network", "opt", a_cons, ["None", "Some"])])
+        cons = [c["bb"] for c in T.calls() if (c["rq"] or c["q"]) == NET + "::consensus::Network::run_inbound_stream"]
+        gos = [c["bb"] for c in T.calls() if (c["rq"] or c["q"]) == NET + "::gossip::Network::run_inbound_stream"]
+        names, tab = W.table({"consensus": cons, "gossip": gos})
+        exp = {("ConsensusNet", "Some"): {"consensus"}, ("ConsensusNet", "None"): set(), ("GossipNet", "Some"): {"gossip"}, ("GossipNet", "None"): {"gossip"}}
+        undecided = len(set(map(frozenset, tab.values()))) == 1
+        bad = {k: sorted(v) for k, v in tab.items() if v != exp[k]}
+        if undecided:
+            ctx.note("C12.7 endpoint dispatch: the switch on the preface endpoint was not recognised - not decided")
+        ctx.ob(R, "endpoint dispatch table", undecided or not bad, ("undecided shape (not reported)" if undecided else "ConsensusNet -> consensus network only when configured; GossipNet -> gossip network (4 valuations)") if (undecided or not bad) else
+               "an inbound stream is dispatched to the wrong network: %s (specified %s)" % (bad, {k: sorted(v) for k, v in exp.items() if k in bad}), g.loc())
 
 
 RULES = [("C12.1", rule_handshake_tables), ("C12.4", rule_admission_order), ("C12.5", rule_pool_guard), ("C12.6", rule_pool_construction), ("C12.7", rule_who_serves)]
